@@ -10,7 +10,7 @@ V = os.path.dirname(os.path.dirname(os.path.abspath(__file__)))
 
 META = {
  "C01": dict(level="exploration", ref="6/C01",
-   technique="TLA+ total-decoder model (TLC: no panic state, named guards, guard-removal mutations) + TLC-generated grammar-boundary datagram histories replayed into the real decoders and JSON encoders; seeded mutation amplification",
+   technique="TLA+ total-decoder model (TLC: no panic state, named guards, guard-removal mutations) + TLC-generated grammar-boundary datagram histories replayed into the real decoders and JSON encoders; seeded mutation amplification; full-range generated histories; 8 real workers decoding concurrently on one template cache under the race detector (a concurrently written Go map aborts the process)",
    text="Exploration. TLC enumerates, for every length/count/type field of each wire grammar, the boundary values in every template-cache state reachable within the bound, and the real decode+marshal path is executed on every emitted history (plus seeded mutations of them) under recover/watchdog. Universal quantification over all byte strings is not enumerable, so this is not model checking of the code.",
    note="Trusts: the boundary sets cover the arithmetic of each guard; octet values outside the boundary/random sample are not explored."),
  "C02": dict(level="exploration", ref="6/C02",
@@ -26,7 +26,7 @@ META = {
    text="Model checking: TLC checks LatestOwn on all histories within the bound and each history is replayed against the real decoders (template announcements, re-announcements, data sets whose decode reveals the version used).",
    note="Exporter names are concretised by the harness (incl. an FNV-1 colliding pair found at run time)."),
  "C05": dict(level="exploration", ref="6/C05",
-   technique="TLA+ JSON tree/escaping model (TLC round-trip of the string renderer) + every message decoded in C03/C06/C07/C08 runs and a hostile-value generator re-parsed with encoding/json and compared to the decoded message",
+   technique="TLA+ JSON tree/escaping model (TLC round-trip of the string renderer) + every message decoded in C03/C06/C07/C08 runs and a hostile-value generator re-parsed by a strict JSON parser and compared to the decoded message; the real workers of all four protocols running in parallel under the race detector, each published payload compared with the stand-alone payload of its datagram",
    text="Exploration for values (hostile strings, float edge cases, 64-bit extremes), structure decided by the specification's JSON tree.",
    note="Trusted: encoding/json as the JSON parser; math/big comparison of numbers."),
  "C06": dict(level="model_checking", ref="6/C06",
@@ -36,47 +36,47 @@ META = {
    technique="TLA+ sFlow/Packet exporter+collector spec; round trip by TLC; spec-generated datagrams replayed into sflow.SFDecoder; Go-generated datagrams validated by TLC",
    text="As C03 for sFlow v5 and the sampled-header breakdown.", note="Domain restrictions in DESIGN 6/C07."),
  "C08": dict(level="model_checking", ref="6/C08",
-   technique="TLA+ NetFlow v5 spec; all counts x lengths enumerated by TLC and replayed; random contents validated by TLC",
+   technique="TLA+ NetFlow v5 spec; all counts x lengths enumerated by TLC and replayed; random contents validated by TLC (NetFlow5Trace); JSON addresses with boundary values in chosen positions; the real v5 workers in parallel under the race detector",
    text="As C03 for NetFlow v5; the count/length space is enumerated exhaustively.", note=""),
  "C09": dict(level="model_checking", ref="6/C09",
-   technique="TLA+ SkipTransparent/TruncationPrefix checked by TLC on the generator space; every insertion position/kind and every truncation offset replayed on the real IPFIX and v9 decoders",
+   technique="TLA+ SkipTransparent/TruncationPrefix checked by TLC on the generator space; every insertion position/kind (incl. data before its template, templates whose lengths overflow 16 bits) and every truncation offset replayed on the real IPFIX and v9 decoders",
    text="Model checking of the reference plus exhaustive replay of insertions and truncations of each generated message against the real decoders; the oracle is the property itself (prefix / neighbours unchanged).",
    note=""),
  "C10": dict(level="model_checking", ref="6/C10",
-   technique="TLA+ lock-protocol spec of the template cache (TLC: all interleavings); schedules replayed into real goroutines through gate hooks with refusal probes; ungated -race stress; recorded call/return histories validated by TLC",
+   technique="TLA+ lock-protocol spec of the template cache (TLC: all interleavings); refusal probes at the lock boundaries (hooks); ungated -race stress of real decoders / Dump / peer Get on fresh and on reloaded (aged) caches; lock-boundary traces recorded through hooks validated by TLC (CacheTrace.tla)",
    text="Model checking of the lock protocol; conformance by schedule replay, refusal probes and trace validation.",
    note="Gates are hooks under build tag verif."),
  "C11": dict(level="model_checking", ref="6/C11",
-   technique="TLA+ persistence layer (Dump as prefix writes with Crash between any two, total Load) checked by TLC; every prefix of real dump files and TLC-generated structural mutations loaded by the real GetCache",
+   technique="TLA+ persistence layer (Dump as prefix writes with Crash between any two, total Load) checked by TLC; every prefix of real dump files (holding colliding exporter pairs, options and full-range templates), structural mutations, hand edits inside templates and byte flips loaded by the real GetCache and then used for decoding",
    text="Model checking of the persistence model and fault enumeration over every crash point of real cache files.",
    note=""),
  "C12": dict(level="model_checking", ref="6/C12",
-   technique="TLA+ Pipeline spec (PublishedIsOwn, NoUseAfterPut) by TLC; worker traces recorded through hooks validated by TLC; byte-for-byte comparison with standalone decode",
+   technique="TLA+ Pipeline spec (PublishedIsOwn, NoUseAfterPut) by TLC; the real workers of the four protocols gate-scheduled through hooks with pool probes (mirroring off / on / mirror queue full), traces validated by TLC (PipelineTrace.tla); byte-for-byte comparison with the stand-alone decode; the same workers free-running in parallel under the race detector",
    text="Model checking of the pipeline model; conformance by trace validation of the real workers.", note=""),
  "C13": dict(level="model_checking", ref="6/C13",
    technique="TLA+ Pipeline spec (CountsExact, AtMostOnce, ExactlyOnceIfData) by TLC; traces and counters of the real workers validated",
    text="Model checking of the accounting invariants; conformance by trace validation.", note=""),
  "C14": dict(level="model_checking", ref="6/C14",
-   technique="TLA+ Producer spec (Subsequence, NoDup, ByteExact, BoundedGap) by TLC over all fault scripts; scripts replayed into producer.RawSocket with a scripted net.Conn and real TCP sinks; sink logs validated as traces",
+   technique="TLA+ Producer spec (Subsequence, NoDup, ByteExact, BoundedGap) by TLC over all fault scripts; every TLC-generated fault script (sink dies / restarts) and stall scenarios (sink stops reading, then resets or reads on) replayed into producer.RawSocket against real TCP / UDP sinks, sink logs validated by TLC (ProducerTrace.tla); Kafka at the sarama.AsyncProducer boundary (ProducerKafka.tla, scripted library that encodes late)",
    text="Model checking over fault sequences; replay of every TLC fault script into the real producer.", note=""),
  "C15": dict(level="model_checking", ref="6/C15",
-   technique="TLA+ Pipeline shutdown actions (NoSendOnClosed, AckedTemplatesSurvive) by TLC; end-to-end runs of the built binary with signals at seeded offsets",
+   technique="TLA+ Pipeline shutdown actions (NoSendOnClosed, AckedTemplatesSurvive) by TLC; the real run()+shutdown() with a full queue and stalled workers; end-to-end stop/start cycles of the built binary (idle / steady / burst / sustained traffic, wildcard and IPv4 bind) with signals at seeded offsets",
    text="Model checking of the shutdown protocol plus end-to-end exploration.", note=""),
  "C16": dict(level="model_checking", ref="6/C16",
-   technique="TLA+ Mirror spec (Faithful for every payload length 0..MaxUDP, both address forms) by TLC; every length replayed through the real mirror worker and captured on loopback",
+   technique="TLA+ Mirror spec (Faithful for every payload length 0..MaxUDP, both address forms) by TLC; every length replayed through the real worker mirror branch, dispatcher and raw-socket mirror worker and captured on loopback; MirrorDispatch.tla (other-family flood); shutdown with mirroring enabled; the pipeline workers with mirroring on / mirror queue full validated by PipelineTrace.tla",
    text="Model checking, exhaustive over lengths for small max-udp-size.", note=""),
  "C17": dict(level="model_checking", ref="6/C17",
-   technique="TLA+ Config spec (Effective = cli > file > env > default over all 8 source subsets) by TLC; every case replayed through the real flagSet for every option field",
+   technique="TLA+ Config spec (Effective = cli > file > env > default over all 8 source subsets) by TLC; every case replayed through the real flagSet for every option field, with -config before and after the other arguments",
    text="Model checking; the configuration space is finite and covered.", note=""),
  "C18": dict(level="model_checking", ref="6/C18",
-   technique="TLA+ FilterTransparent by TLC on the sFlow generator space; datagrams x filters replayed on sflow.SFDecoder",
+   technique="TLA+ FilterTransparent by TLC on the sFlow generator space; datagrams x filter lists (incl. aliasing-prone unknown types) replayed on sflow.SFDecoder and validated by TLC; the real sFlow workers in parallel sharing one configured list",
    text="Model checking of the reference plus replay.", note=""),
  "C19": dict(level="model_checking", ref="6/C19",
    technique="TLA+ Reader spec: TLC exhaustive over buffers <= MaxLen x all operation/argument transitions, one real test per transition; random recorded traces validated by TLC (ReaderTrace)",
    text="Model checking: the reader's state space (buffer prefix, position) and every operation/argument transition is enumerated by TLC within the bound and each transition is executed on reader.Reader; recorded random traces of the real reader are validated against the same actions. The accounting invariant and the four action properties are checked on every transition.",
    note="Bound: buffers of length <= 9 (quick) / 12 (thorough) in the exhaustive part, <= 47 in traces; n >= 0."),
  "C20": dict(level="model_checking", ref="6/C20",
-   technique="TLA+ InfoModel spec: TLC evaluates TablesAgree/KeyedByOwnId/TypeRecognised/NoRetyping over dumps of the real built-in table and of the table after loading scripts/ipfix.elements",
+   technique="TLA+ InfoModel spec: TLC evaluates TablesAgree/KeyedByOwnId/TypeRecognised/NoRetyping over dumps of the real built-in table and of the table after loading scripts/ipfix.elements; the same histories (every element) decoded with and without the file installed must give identical results",
    text="Model checking, exhaustive over the finite tables (every element of both).", note="The snapshot is the pinned tree's table (IANA registry not available offline)."),
 }
 
